@@ -40,6 +40,10 @@ def x_obligations(tier):
     for i in (29, 34):
         o.append(Obl(f"C03-history[after call#{i}]", "xhair.obl.c13", "pair", env={"VF_IDX": str(i), "VF_FIRST": "local"}, timeout=170 if tier == "quick" else 600, family="C03-history",
                      bound=f"history (call #{i}: fields-dictionary edit / get_with(ext=None), call j) for every j of the call alphabet of C13, caches on"))
+    # typed Sids that keep a refused query (possibly containing '/') in their string: len / keytype / basetype still count fields
+    for pre, n, suf in [("h/a/x?", 2, ""), ("h/a/x?q=", 1, "/b"), ("h/s/q1/v1?q=b", 1, "c/")]:
+        o.append(Obl(f"C03-refused-query[{pre!r}+{n}+{suf!r}]", M, "refused_query", env={"VF_PRE": pre, "VF_N": str(n if tier == "quick" else n + 1), "VF_SUF": suf}, timeout=170 if tier == "quick" else 600,
+                     family="C03-refused-query", bound=f"Sid({pre!r} + t + {suf!r}), every t with len(t) <= {n if tier == 'quick' else n + 1} without ':'"))
     o.append(Obl("C03-reach", M, "reach", env={"VF_N": "3", "VF_PRE": "h/a/"}, timeout=150, expect="refute", family="C03-twin"))
     return o
 
